@@ -271,12 +271,20 @@ class Interp:
         env = self.bind_args(clo, args, kwargs)
         return self.run_body(clo, env)
 
+    _GEN_CACHE = {}  # id(node) -> (node, bool): the AST of a function does not change during a run
+
     def is_generator(self, node):
+        hit = Interp._GEN_CACHE.get(id(node))
+        if hit is not None and hit[0] is node:
+            return hit[1]
+        r = False
         for n in ast.walk(node):
             if isinstance(n, (ast.Yield, ast.YieldFrom)):
                 # make sure the yield is not inside a nested function
-                return self._owns_yield(node)
-        return False
+                r = self._owns_yield(node)
+                break
+        Interp._GEN_CACHE[id(node)] = (node, r)
+        return r
 
     def _owns_yield(self, node):
         def walk(n, top):
@@ -396,16 +404,24 @@ class Interp:
 
     def inplace(self, op, cur, val):
         """`x op= v`: numpy / torch arrays are updated in place (aliases see it), everything else rebinds."""
+        if isinstance(cur, SymArr) and not cur.pylist and cur.base is not cur:
+            cur.detach_from_base()
         new = self.binop(op, cur, val)
         if isinstance(cur, SymArr) and not cur.pylist and isinstance(new, SymArr):
-            cur.fn = new.fn
+            cur.fn = new.fn  # `new` captured the old index function by value (values._snap_fn / elementwise)
             cur.writes += 1
-            if cur.base is not cur:
-                cur.base.writes += 1
+            # ghost facts attached by a library model to the freshly computed array (C15: conserved totals) follow the
+            # value into the updated array; they are stamped with the write counter, so any other write invalidates them
+            g = getattr(new, "_ghost_total", None)
+            if g is not None:
+                cur._ghost_total = (g[0], cur.writes)
             return cur
         if isinstance(cur, list) and op is operator.add:
             cur.extend(val)
             return cur
+        if hasattr(cur, "_pyvc_inplace") and not isinstance(cur, (Sym, SymArr, Obj)):
+            # value classes of library models that are mutable arrays (C13: structural complex arrays): `x op= v` stores INTO x
+            return cur._pyvc_inplace(op, new)
         return new
 
     def assign(self, target, v, env):
@@ -615,6 +631,9 @@ class Interp:
 
     def x_For(self, node, env):
         it = self.eval(node.iter, env)
+        if isinstance(it, Obj) and hasattr(it.cls, "__iter__"):
+            # `for x in obj`: the iterator protocol calls obj.__iter__() (used through its contract / inlined)
+            it = self.call(self.getattr(it, "__iter__"), [], {})
         spec = self.loop_spec(node)
         seq = self.iter_values(it)
         if seq is not None and spec is None:
@@ -733,9 +752,14 @@ class Interp:
         if N is not None:
             ctx.assume(k.t <= lift(N))
         self._havoc(env, carried, spec, pre, lid)
+        # arrays written IN PLACE by the body (`a[i] = v`, `a[i] += v`): their contents are arbitrary at iteration k
+        inplace_names = self._havoc_inplace(node.body, env, carried, spec, lid)
         inv_k = self._inv(spec, ns(k))
         for lab, t in inv_k:
             ctx.assume(t)
+        # safety net: anything mutable that is NOT havocked must come out of the body unmodified
+        skip = set(carried) | set(inplace_names) | set(spec.havoc.keys()) | set(tnames)
+        mut_before = self._mutable_signature(env, skip)
         # which way: one more iteration (check preservation, then stop) or exit?
         if kind == "for":
             more = ctx.branch(k.t < lift(N))
@@ -755,6 +779,11 @@ class Interp:
                     raise OutOfSubset("break inside a loop verified by invariant")
             finally:
                 self.loop_k.pop()
+            mut_after = self._mutable_signature(env, skip)
+            for key, sig in mut_before.items():
+                if key in mut_after and mut_after[key] != sig:
+                    raise OutOfSubset(f"{lid}: loop body mutates `{key}` which is neither loop-carried nor havocked "
+                                      f"(add a LoopSpec.havoc entry keyed by its variable name)")
             for lab, t in self._inv(spec, ns(k + 1)):
                 ctx.prove(f"{lid}:inv-preserved:{lab}", t, kind="loop-inv-preserved")
             if spec.variant:
@@ -770,6 +799,66 @@ class Interp:
             kk = ctx.fresh("ky", "int")
             self.yields.append(("family", N if N is not None else k, kk, spec.yields(ns(kk)), lid))
         self.exec_block(node.orelse, env)
+
+    def _store_bases(self, stmts):
+        """Names that are the base of a Subscript store / augmented subscript store in `stmts`."""
+        out = set()
+        for st in stmts:
+            for n in ast.walk(st):
+                tgts = []
+                if isinstance(n, ast.Assign):
+                    tgts = n.targets
+                elif isinstance(n, (ast.AugAssign, ast.AnnAssign)):
+                    tgts = [n.target]
+                for t in tgts:
+                    for e in ast.walk(t):
+                        if isinstance(e, ast.Subscript) and isinstance(e.ctx, ast.Store) and isinstance(e.value, ast.Name):
+                            out.add(e.value.id)
+        return out
+
+    def _havoc_inplace(self, body, env, carried, spec, lid):
+        done = []
+        for n in sorted(self._store_bases(body)):
+            if n in carried or n in spec.havoc:
+                continue
+            try:
+                v = env.lookup(n)
+            except RaiseSig:
+                continue
+            if isinstance(v, SymArr):
+                if v.base is not v:
+                    v.detach_from_base()
+                kind = v.kind if v.kind in ("int", "real", "bool") else "real"
+                fresh = self.ctx.fresh_arr(n, v.shape, kind)
+                v.fn = fresh.fn
+                v.func = getattr(fresh, "func", None)
+                v.writes += 1
+                done.append(n)
+        return done
+
+    def _mutable_signature(self, env, skip):
+        """Cheap identity/content signature of every mutable value reachable from the environment (depth 2)."""
+        sig = {}
+
+        def one(key, v, depth):
+            if isinstance(v, SymArr):
+                sig[key] = ("arr", id(v), v.writes, id(v.fn))
+            elif isinstance(v, Obj) and depth < 2:
+                sig[key] = ("obj", id(v), tuple(sorted(v.fields)))
+                for f, fv in v.fields.items():
+                    one(f"{key}.{f}", fv, depth + 1)
+            elif isinstance(v, list) and depth < 2:
+                sig[key] = ("list", id(v), len(v), tuple(id(x) for x in v[:50]))
+            elif isinstance(v, dict) and depth < 2:
+                sig[key] = ("dict", id(v), len(v), tuple((repr(k)[:20], id(x)) for k, x in list(v.items())[:50]))
+            elif isinstance(v, set):
+                sig[key] = ("set", id(v), len(v))
+
+        for name, v in self._flat_env(env).items():
+            if name in skip:
+                continue
+            one(name, v, 0)
+        return sig
 
     def _inv(self, spec, s):
         r = spec.inv(s)
@@ -827,7 +916,7 @@ class Interp:
             else:
                 env.assign(n, ctx.fresh(n, kind))
         for key, h in spec.havoc.items():
-            h(NS(dict(self._flat_env(env)), pre=pre, ctx=ctx, interp=self))
+            h(NS(dict(self._flat_env(env)), pre=pre, ctx=ctx, interp=self, env=env))  # env: lets a hook rebind a local that is mutated through methods (C10: list.append)
 
     def iter_family(self, it):
         """(trip count, getter(k)->value) for a symbolic iterable."""
@@ -1067,6 +1156,11 @@ class Interp:
             raise RaiseSig(e)
 
     def e_IfExp(self, node, env):
+        h = getattr(self.reg, "ifexp_model", None)  # optional (per-property): value-level merge of pure conditional expressions
+        if h is not None:
+            r = h(self, node, env)
+            if r is not NotImplemented:
+                return r
         if self.truth(self.eval(node.test, env)):
             return self.eval(node.body, env)
         return self.eval(node.orelse, env)
@@ -1306,6 +1400,7 @@ class Interp:
             return None
         if fname == "cast" and len(node.args) == 2:
             return self.eval(node.args[1], env)
+        self.cur_env = env  # lets a model of zero-argument `super()` find the enclosing function's first argument
         f = self.eval(fnode, env)
         args = self._elts(node.args, env)
         kwargs = {}
@@ -1322,6 +1417,8 @@ class Interp:
             return self.call_closure(f, args, kwargs)
         if isinstance(f, BoundMethod):
             return self.call(f.func, [f.obj] + list(args), kwargs, node)
+        if isinstance(f, Obj) and hasattr(f.cls, "__call__"):
+            return self.call(self.getattr(f, "__call__"), args, kwargs, node)  # calling an abstract instance: cls.__call__
         # models keyed by the real callable
         try:
             m = reg.models.get(f)
